@@ -421,6 +421,51 @@ def probe_service_types():
     return rows
 
 
+def probe_own_services():
+    """[(entry point, host, services, clean)]: a node / a switch that owns `services` network services directly, each with
+    an interface of the SAME name p1 (interface names are unique per service only), every one of them connected to a service
+    of its own that also holds a port of another node; after the call every one of those services holds that other port alone
+    and there is one link per service left.  Before the call the node lists every one of its interfaces."""
+    import fim.user as fu
+    from fim.user.topology import ExperimentTopology
+    rows = []
+    for host, entry in (("node", "remove_node"), ("node", "prune"), ("switch", "remove_node"), ("switch", "remove_switch"), ("switch", "prune")):
+        for k in (1, 2, 3):
+            t = ExperimentTopology()
+            try:
+                if host == "node":
+                    h = t.add_node(name="h1", site="RENC")
+                else:
+                    h = t.add_switch(name="h1", site="RENC", nports=1)
+                own = len(h.interface_list)
+                n2 = t.add_node(name="n2", site="RENC")
+                fars = []
+                for j in range(k):
+                    ns = h.add_network_service(name="ns%d" % j, nstype=fu.ServiceType.MPLS)
+                    i = ns.add_interface(name="p1", itype=fu.InterfaceType.TrunkPort)
+                    far = n2.add_component(name="nic%d" % j, model_type=fu.ComponentModelType.SmartNIC_ConnectX_6).interface_list[0]
+                    fars.append(far.name)
+                    t.add_network_service(name="s%d" % j, nstype=fu.ServiceType.L2Bridge, interfaces=[i, far])
+                listed = len({i.node_id for i in t.nodes["h1"].interface_list}) == own + k
+                if entry == "prune":
+                    from fim.slivers.capacities_labels import ReservationInfo
+                    t.nodes["h1"].reservation_info = ReservationInfo(reservation_state="Failed")
+                    t.prune(reservation_state="Failed")
+                else:
+                    getattr(t, entry)(name="h1")
+                clean = listed and all([i.name for i in t.network_services["s%d" % j].interface_list] == ["n2-" + fars[j]] for j in range(k)) \
+                    and sorted(t.links.keys()) == sorted("n2-" + f + "-link" for f in fars)
+            except Exception:
+                clean = False
+            finally:
+                try:
+                    t.graph_model.delete_graph()
+                except Exception:
+                    pass
+            rows.append((entry, host, k, clean))
+    return rows
+
+
 def generate_probe():
     rows = probe_catalog()
     if not any(r[2] > 0 for r in rows):
@@ -436,8 +481,14 @@ def generate_probe():
              "dictionary of the surviving service is unchanged) -/\n")
     body += "def serviceKept : List (String × String × String × Bool) := [\n%s]\n" % ",\n".join(
         '  ("%s", "%s", "%s", %s)' % (e, t, src, "true" if ok else "false") for e, t, src, ok in srows)
+    orows = probe_own_services()
+    body += ("\n/-- behavioural probe on a node / a switch that owns several services directly, each with a connected interface of the\n"
+             "same name `p1`: (entry point, host, number of such services, the node listed all of them and after the call every\n"
+             "connecting service holds the far port alone, one link each) -/\n")
+    body += "def ownServicesRemoval : List (String × String × Nat × Bool) := [\n%s]\n" % ",\n".join(
+        '  ("%s", "%s", %d, %s)' % (e, h, k, "true" if ok else "false") for e, h, k, ok in orows)
     changed = emit("RemovalProbe", body)
-    return {"rows": len(rows), "service_rows": len(srows), "service_changed": [list(r[:3]) for r in srows if not r[3]], "with_ports": sorted({r[1] for r in rows if r[2] > 0}), "dirty": [list(r[:2]) for r in rows if not r[4]], "changed": changed}
+    return {"own_service_rows": len(orows), "own_services_dirty": [list(r[:3]) for r in orows if not r[3]], "rows": len(rows), "service_rows": len(srows), "service_changed": [list(r[:3]) for r in srows if not r[3]], "with_ports": sorted({r[1] for r in rows if r[2] > 0}), "dirty": [list(r[:2]) for r in rows if not r[4]], "changed": changed}
 
 
 if __name__ == "__main__":
